@@ -469,3 +469,71 @@ def apply_edit(Kl, edit, names=None):
         Kl.replace_labelling_function(L)
     else:
         raise ValueError(edit)
+
+
+# ---------------------------------------------------------------- medium structures, towers, wide operators
+
+def medium_kripkes(seed=0, count=40, atoms=('p', 'q')):
+    """A fixed, seed-indexed family of total structures with 5..7 states: rings with chords, chains into
+    loops, two components, trees with back edges, plus LCG-generated ones (deterministic)."""
+    out = []
+    subs = subsets(atoms)
+
+    def lab_for(n, salt):
+        return [subs[(i * 7 + salt * 3 + i * i) % len(subs)] for i in range(n)]
+    for n in (5, 6, 7):
+        ring = [((i + 1) % n,) for i in range(n)]
+        out.append(K(n, ring, lab_for(n, 1)))
+        out.append(K(n, [((i + 1) % n, (i + 2) % n) for i in range(n)], lab_for(n, 2)))
+        chain = [(i + 1,) for i in range(n - 1)] + [(n - 1,)]
+        out.append(K(n, chain, lab_for(n, 3)))
+        out.append(K(n, [(i + 1, 0) if i < n - 1 else (n - 2,) for i in range(n)], lab_for(n, 4)))
+        two = [((i + 1) % 3,) for i in range(3)] + [(3 + (i + 1) % (n - 3), 0) if i == 0 else (3 + (i + 1) % (n - 3),)
+                                                   for i in range(n - 3)]
+        out.append(K(n, two, lab_for(n, 5)))
+        tree = [tuple(sorted(set([min(2 * i + 1, n - 1), min(2 * i + 2, n - 1)]))) for i in range(n)]
+        tree[n - 1] = (0,)
+        out.append(K(n, tree, lab_for(n, 6)))
+    x = (seed * 2654435761 + 12345) % (1 << 31)
+    while len(out) < count:
+        x = (x * 1103515245 + 12345) % (1 << 31)
+        n = 5 + x % 3
+        succ = []
+        for i in range(n):
+            x = (x * 1103515245 + 12345) % (1 << 31)
+            m = 1 + x % 2
+            s = set()
+            for _ in range(m):
+                x = (x * 1103515245 + 12345) % (1 << 31)
+                s.add(x % n)
+            succ.append(tuple(sorted(s)))
+        x = (x * 1103515245 + 12345) % (1 << 31)
+        out.append(K(n, succ, lab_for(n, x % 11)))
+    return out[:count]
+
+
+def ctl_towers(depth, leaves=(P,)):
+    """Unary CTL operators nested `depth` deep over the leaves."""
+    cur = list(leaves)
+    for _ in range(depth):
+        cur = [_ctl_un(op, a) for a in cur for op in CTL_UN]
+    return cur
+
+
+def path_towers(depth, leaves=(P,)):
+    cur = list(leaves)
+    for _ in range(depth):
+        cur = [(op, a) for a in cur for op in PATH_UN]
+    return cur
+
+
+def wide_props(leaves=LEAVES2, arities=(4, 5)):
+    """and/or with 4 and 5 operands over literals (a stride, the full product is large)."""
+    lits = literal_leaves(leaves)
+    out = []
+    for k in arities:
+        for i, combo in enumerate(itertools.product(lits, repeat=k)):
+            if i % (7 if k == 4 else 53) == 0:
+                for op in ('and', 'or'):
+                    out.append((op,) + combo)
+    return out
